@@ -107,6 +107,7 @@ type Output struct {
 	WallS              float64        `json:"wall_s"`
 	OracleCmd          string         `json:"oracle_cmd"`
 	HarnessError       string         `json:"harness_error,omitempty"`
+	NTHashes           []string       `json:"nt_hashes,omitempty"` // shard mode only: hashes of the distinct non-trivial cases
 }
 
 // RunOracle feeds all lines to the oracle executable and returns its output lines.
@@ -369,6 +370,9 @@ func Main(spec Spec, args []string) {
 			seen[h] = true
 			if spec.NonTrivial == nil || spec.NonTrivial(c, results[i]) {
 				o.DistinctNonTrivial++
+				if shardN > 1 {
+					o.NTHashes = append(o.NTHashes, h)
+				}
 			}
 		}
 		if len(o.Samples) < 3 && len(c.Lines) > 1 && c.Tag != "corpus" && (i%7 == 3 || len(cases) < 10) {
@@ -476,6 +480,7 @@ func runSharded(n int, args []string, out string, start time.Time) int {
 	first := true
 	rc := 0
 	keys := map[string]bool{}
+	nt := map[string]bool{}
 	for _, c := range kids {
 		if err := c.cmd.Wait(); err != nil {
 			rc = 2
@@ -488,6 +493,9 @@ func runSharded(n int, args []string, out string, start time.Time) int {
 			continue
 		}
 		os.Remove(c.path)
+		for _, h := range o.NTHashes {
+			nt[h] = true
+		}
 		if first {
 			m = o
 			first = false
@@ -524,6 +532,8 @@ func runSharded(n int, args []string, out string, start time.Time) int {
 			m.HarnessError = o.HarnessError
 		}
 	}
+	m.DistinctNonTrivial = len(nt) // distinct across shards
+	m.NTHashes = nil
 	m.WallS = time.Since(start).Seconds()
 	writeJSON(out, m)
 	fmt.Printf("corr %s tier=%s seed=%d shards=%d cases=%d ops=%d distinct_nontrivial=%d disagreements=%d monitor_hits=%d wall=%.1fs\n",
